@@ -75,7 +75,7 @@ def cases(tier, rng):
 def nontrivial(case, out):
     return 'LCond' in out and 'LMod' in out
 
-STAGES = [dict(name='invocations', mode='app', coq='Check.C12c', cases=cases, nontrivial=nontrivial, shard=25,
+STAGES = [dict(name='invocations', mode='app', coq='Check.C12c', profile=('Proofs.JudgeC12P', 'JudgeC12P.profile_C12b', 'C12_app_judgement_sound / C12_app_judgement_transfer'), cases=cases, nontrivial=nontrivial, shard=25,
                exhaustive={'thorough': False, 'quick': False},
                rule='fully scripted configurations: 1-3 context types, 1-3 actions each, 0-3 inputs, 0-3 modifiers and 0-3 conditions at each level, every one an instrumented '
                     'scripted condition/modifier with random results (failing blockers, all-None rows, dimension-changing values), contested consuming inputs, inactive inputs, '
